@@ -110,7 +110,37 @@ def run(ctx: Ctx):
         else:
             for i, _ in pairs:
                 ctx.violation(f"exported post-CSE Python program is not single-assignment / uses a temporary before it is set: {ssa_lab[i]}", {"block": ssa_lab[i]}, key="py-ssa")
-    ctx.cov["input_distribution"] = dict(n_temps, definitions=len(base), structure_cases=nstruct, python_programs_checked=len(ssa_terms))
+    # ---------------- histories inside one interpreter: nothing computed for an earlier compilation or an earlier call may be
+    # reused where it does not apply (same-named symbols with other assumptions; inputs differing only in the sign of a zero)
+    hist = [(M.assumption_twin_definition(), M.assumption_twin_points(), {"warmup_assumptions": {"positive": True}}),
+            (M.signed_zero_definition(), M.signed_zero_points(), {})]
+    hjobs = []
+    for d, pts, extra in hist:
+        for cse in (False, True):
+            hjobs.append(dict({"defn": d, "cse": cse, "decl": {"container": "list", "perm_seed": 1}, "points": pts, "want": ["model"]}, **extra))
+    hres = ctx.run_impl_jobs("glue_py.py", hjobs)
+    n_hist = 0
+    for hi in range(0, len(hjobs), 2):
+        off, on = hres[hi], hres[hi + 1]
+        d = hjobs[hi]["defn"]
+        if "error" in off or "error" in on:
+            ctx.violation("python.compile crashed on a valid definition (history stream)", {"definition": d, "off": off.get("error"), "on": on.get("error")}, key="py-compile")
+            continue
+        for pi, (a, b) in enumerate(zip(off["points"], on["points"])):
+            rp = {"definition": d, "inputs": hjobs[hi]["points"][pi], "compiled_before": hjobs[hi].get("warmup_assumptions"), "calls_before": hjobs[hi]["points"][:pi]}
+            if "_raised" in a["model"] or "_raised" in b["model"]:
+                continue
+            for name in a["model"]:
+                n_hist += 1
+                exp = a["oracle_model"].get(name)
+                va, vb = a["model"][name], b["model"][name]
+                if not glue.close(va, vb):
+                    ctx.violation(f"after the calls / compilations made before, CSE on and off give different values for {name!r}: {va!r} (off) vs {vb!r} (on)",
+                                  dict(rp, off=a["model"], on=b["model"]), key="cse-changes-value-in-history")
+                elif exp is not None and not glue.close(vb, exp):
+                    ctx.violation(f"after the calls / compilations made before, the compiled model returns {vb!r} for {name!r}, the update expression evaluates to {exp!r}",
+                                  dict(rp, observed=b["model"], expected=a["oracle_model"]), key="model-value-in-history")
+    ctx.cov["input_distribution"] = dict(n_temps, definitions=len(base), structure_cases=nstruct, python_programs_checked=len(ssa_terms), history_values=n_hist)
     ctx.cov["traces_validated_against_impl"] = nstruct + len(ssa_terms)
     return ("each definition generated with CSE off and on (a third of them chains of 3-5 nested shared sub-expressions whose middle levels are used "
             "only by other temporaries): Python prediction and updates, and every value of the compiled generated C++, compared between the two "
